@@ -880,6 +880,11 @@ func (r *FnRun) checkEffect(st *State, ins ssa.Instruction, cc *ssa.CallCommon) 
 			ok = true
 		}
 	}
+	if !ok && osQueries[pkg+"."+name] {
+		// queries cannot create, modify or remove a file-system object (trusted, listed)
+		r.E.Trusted["library queries that do not mutate the file system: "+pkg+"."+name] = true
+		return
+	}
 	if !ok {
 		r.addGoal(st, "effects.allowed["+pkg+"."+name+"]", r.posOf(ins), False, nil)
 	} else {
@@ -887,6 +892,19 @@ func (r *FnRun) checkEffect(st *State, ins ssa.Instruction, cc *ssa.CallCommon) 
 	}
 }
 
+
+// osQueries: functions of package os that only inspect (trusted): an effect
+// allow-list restricts the MUTATORS a function may call, a query added by a
+// harmless refactoring must not raise an alarm.
+var osQueries = map[string]bool{
+	"os.IsNotExist": true, "os.IsExist": true, "os.IsPermission": true, "os.IsTimeout": true,
+	"os.Stat": true, "os.Lstat": true, "os.Getenv": true, "os.LookupEnv": true, "os.Environ": true,
+	"os.Getwd": true, "os.Getpid": true, "os.Hostname": true, "os.UserHomeDir": true, "os.TempDir": true,
+	"os.Executable": true, "os.SameFile": true, "os.IsPathSeparator": true, "os.ReadFile": true,
+	"os.ReadDir": true, "os.Readlink": true,
+	"os.File.Name": true, "os.File.Fd": true, "os.File.Stat": true, "os.File.Read": true, "os.File.ReadAt": true,
+	"os.FileMode.IsDir": true, "os.FileMode.IsRegular": true, "os.FileMode.Perm": true, "os.FileMode.String": true, "os.FileMode.Type": true,
+}
 
 // autoInlinable: callee has a body, lives in the package of the function under
 // contract, is loop-free and small, and is not already being expanded.
